@@ -79,6 +79,12 @@ func tail(s string, n int) string {
 
 // standard-library leaves known not to allocate (or only on paths outside the claim)
 var a16ExternalAllow = map[string]string{
+	"(*sync.Mutex).Lock":                     "no allocation (writer wrappers)",
+	"(*sync.Mutex).Unlock":                   "no allocation (writer wrappers)",
+	"(*bytes.Buffer).Bytes":                  "pure",
+	"(*bytes.Buffer).Write":                  "appends to the pooled hold-back buffer (amortised growth, outside the pass-through claim)",
+	"(*bytes.Buffer).WriteByte":              "appends to the pooled hold-back buffer (amortised growth, outside the pass-through claim)",
+	"bytes.IndexByte":                        "pure",
 	"(*sync.Pool).Get":                       "pool (warm)",
 	"(*sync.Pool).Put":                       "pool",
 	"strconv.AppendInt":                      "appends",
@@ -541,6 +547,13 @@ func ruleA16(r *Run, p *Prog) {
 	for _, n := range []string{"Dict", "Arr"} {
 		if f := p.Func("", n); f != nil {
 			roots = append(roots, f)
+		}
+	}
+	// the module's own writer wrappers are part of emitting an event when they are the destination:
+	// their pass-through paths allocate nothing either
+	for _, w := range [][2]string{{"LevelWriterAdapter", "WriteLevel"}, {"syncWriter", "WriteLevel"}, {"multiLevelWriter", "WriteLevel"}, {"FilteredLevelWriter", "WriteLevel"}, {"TriggerLevelWriter", "WriteLevel"}} {
+		if m := p.Method("", w[0], w[1]); m != nil {
+			roots = append(roots, m)
 		}
 	}
 	for _, f := range roots {
